@@ -183,3 +183,116 @@ Proof.
   transitivity (c_carquet_write_u64_le (p0 :: p1 :: p2 :: p3 :: p4 :: p5 :: p6 :: p7 :: rest) (Z.of_N (Z.to_N (wrapu 64 v))));
     [rewrite Z2N.id by apply wrapu64_range; reflexivity | apply tie_write_u64_le].
 Qed.
+
+(* ------------------------------------------------------------------ read_uleb128: src/encoding/delta.c *)
+
+(** the unrolled loop of read_uleb128 as it is generated: [n] iterations left; [i] and [shift] are literals there *)
+Fixpoint uleb_loop (n : nat) (data : list Z) (size : Z) (value : list Z) (i shift : Z) : list Z * Z :=
+  match n with
+  | O => (value, 0)
+  | S n' =>
+    if Z.ltb i size then
+      let b := rd data i in
+      let value' := upd value 0 (Z.lor (rd value 0) (cshl_u 64 (wrapu 64 (Z.land b 127)) shift)) in
+      if Z.eqb (Z.land b 128) 0 then (value', i + 1)
+      else uleb_loop n' data size value' (i + 1) (shift + 7)
+    else (value, 0)
+  end.
+
+Lemma uleb_loop_model (n : nat) (dataN : list N) (i : nat) (acc shift : N) :
+  (i <= length dataN)%nat -> (Z.of_N shift + 7 * Z.of_nat n <= 70) ->
+  match DeltaModel.uleb_dec_f n (skipn i dataN) shift acc with
+  | Some (v, rest) =>
+      uleb_loop n (map Z.of_N dataN) (Z.of_nat (length dataN)) [Z.of_N acc] (Z.of_nat i) (Z.of_N shift)
+      = ([Z.of_N v], Z.of_nat (length dataN - length rest))
+  | None =>
+      snd (uleb_loop n (map Z.of_N dataN) (Z.of_nat (length dataN)) [Z.of_N acc] (Z.of_nat i) (Z.of_N shift)) = 0
+  end.
+Proof.
+  revert i acc shift. induction n as [|n IH]; intros i acc shift Hi Hs; [reflexivity|].
+  cbn [uleb_loop DeltaModel.uleb_dec_f].
+  destruct (Z.ltb_spec (Z.of_nat i) (Z.of_nat (length dataN))) as [L|L].
+  - assert (Hlt : (i < length dataN)%nat) by lia.
+    rewrite (skipn_cons_nth 0%N dataN i Hlt). cbv zeta.
+    rewrite rd_map_of_N by exact Hlt. set (b := nth i dataN 0%N).
+    rd_simpl. rewrite (varint_group 64 b shift) by lia. change (Z.to_N 64) with 64%N.
+    rewrite <- of_N_lor.
+    replace ((N.shiftl (N.land b 127) shift) mod 2 ^ 64)%N with (DeltaModel.u64 (N.shiftl (N.land b 127) shift))
+      by (unfold DeltaModel.u64, DeltaModel.ones64; apply N.land_ones).
+    change 128 with (Z.of_N 128). rewrite <- of_N_land.
+    replace (Z.of_N (N.land b 128) =? 0) with (N.land b 128 =? 0)%N by (symmetry; apply (Z_eqb_of_N _ 0)).
+    replace (Z.of_nat i + 1) with (Z.of_nat (S i)) by lia.
+    destruct (N.eqb_spec (N.land b 128) 0) as [E|E].
+    + rewrite skipn_length. do 2 f_equal. lia.
+    + replace (Z.of_N shift + 7) with (Z.of_N (shift + 7)) by lia. apply IH; lia.
+  - replace i with (length dataN) by lia. rewrite skipn_all. reflexivity.
+Qed.
+
+(** read_uleb128(data, size, value) with size = the length of data: the value and the number of bytes consumed, or 0
+    when the model's decoder fails (truncated input, or no terminating byte among the first ten) *)
+Lemma tie_delta_read_uleb128 (dataN : list N) (v0 : Z) :
+  match DeltaModel.uleb_dec dataN with
+  | Some (v, rest) =>
+      c_read_uleb128 (map Z.of_N dataN) (Z.of_nat (length dataN)) [v0]
+      = ([Z.of_N v], Z.of_nat (length dataN - length rest))
+  | None => snd (c_read_uleb128 (map Z.of_N dataN) (Z.of_nat (length dataN)) [v0]) = 0
+  end.
+Proof.
+  replace (c_read_uleb128 (map Z.of_N dataN) (Z.of_nat (length dataN)) [v0])
+    with (uleb_loop 10 (map Z.of_N dataN) (Z.of_nat (length dataN)) [Z.of_N 0] (Z.of_nat 0) (Z.of_N 0)) by reflexivity.
+  unfold DeltaModel.uleb_dec. apply (uleb_loop_model 10 dataN 0 0 0); cbn; lia.
+Qed.
+
+(* ------------------------------------------------------------------ write_uleb128: src/encoding/delta.c *)
+
+(** the unrolled loop of write_uleb128 as it is generated ("unroll": 9): [n] iterations left, [i] a literal there *)
+Fixpoint wuleb (n : nat) (data : list Z) (value i : Z) : list Z * Z :=
+  if Z.geb value 128 then
+    match n with
+    | O => ([loop_exhausted], loop_exhausted)
+    | S n' => wuleb n' (upd data i (wrapu 8 (Z.lor value 128))) (cshr 64 value 7) (i + 1)
+    end
+  else (upd data i (wrapu 8 value), i + 1).
+
+Lemma wuleb_model (n : nat) (pre rest : list Z) (v : N) :
+  (v < 128 * 2 ^ (7 * N.of_nat n))%N -> (n < length rest)%nat ->
+  let bs := DeltaModel.uleb_enc_f (S n) v in
+  wuleb n (pre ++ rest) (Z.of_N v) (Z.of_nat (length pre))
+  = (pre ++ map Z.of_N bs ++ skipn (length bs) rest, Z.of_nat (length pre + length bs)).
+Proof.
+  revert pre rest v. induction n as [|n IH]; intros pre rest v Hv Hr bs.
+  - change (128 * 2 ^ (7 * N.of_nat 0))%N with 128%N in Hv.
+    destruct rest as [|x rest]; [cbn in Hr; lia|]. subst bs. cbn [wuleb DeltaModel.uleb_enc_f].
+    destruct (Z.geb_spec (Z.of_N v) 128); [lia|]. destruct (N.ltb_spec v 128); [|lia].
+    rewrite upd_at. rewrite wrapu8_small by lia. cbn [map app length skipn]. f_equal. lia.
+  - destruct rest as [|x rest]; [cbn in Hr; lia|]. subst bs.
+    cbn [wuleb]. change (DeltaModel.uleb_enc_f (S (S n)) v)
+      with (if (v <? 128)%N then [v] else N.lor (N.land v 127) 128 :: DeltaModel.uleb_enc_f (S n) (N.shiftr v 7)).
+    destruct (Z.geb_spec (Z.of_N v) 128) as [G|L]; destruct (N.ltb_spec v 128) as [L'|G']; try lia.
+    + rewrite upd_at, byte_cont. rewrite cshr_ok by lia.
+      change 7 with (Z.of_N 7) at 1. rewrite <- of_N_shiftr.
+      replace (pre ++ Z.of_N (N.lor (N.land v 127) 128) :: rest)
+        with ((pre ++ [Z.of_N (N.lor (N.land v 127) 128)]) ++ rest) by (rewrite <- app_assoc; reflexivity).
+      replace (Z.of_nat (length pre) + 1) with (Z.of_nat (length (pre ++ [Z.of_N (N.lor (N.land v 127) 128)])))
+        by (rewrite app_length; cbn; lia).
+      rewrite IH.
+      * cbn [map app length skipn]. rewrite <- app_assoc. cbn [app]. f_equal. rewrite app_length. cbn. lia.
+      * rewrite N.shiftr_div_pow2. apply N.div_lt_upper_bound; [discriminate|].
+        replace (7 * N.of_nat (S n))%N with (7 + 7 * N.of_nat n)%N in Hv by lia.
+        rewrite N.pow_add_r in Hv. change (2 ^ 7)%N with 128%N in *. lia.
+      * cbn in Hr. lia.
+    + rewrite upd_at. rewrite wrapu8_small by lia. cbn [map app length skipn]. f_equal. lia.
+Qed.
+
+(** write_uleb128(data, value): the first bytes of data become the model's encoding, the rest is untouched, the
+    return value is their number (nine loop iterations suffice for a uint64_t: the bound given to the translator) *)
+Lemma tie_delta_write_uleb128 (data : list Z) (v : N) :
+  (v < 2 ^ 64)%N -> (10 <= length data)%nat ->
+  let bs := DeltaModel.uleb_enc v in
+  c_write_uleb128 data (Z.of_N v) = (map Z.of_N bs ++ skipn (length bs) data, Z.of_nat (length bs)).
+Proof.
+  intros Hv Hd bs.
+  transitivity (wuleb 9 data (Z.of_N v) 0); [reflexivity|].
+  apply (wuleb_model 9 [] data v); [|lia].
+  eapply N.lt_trans; [exact Hv|reflexivity].
+Qed.
